@@ -770,6 +770,8 @@ def run(ctx):
     # a clone that receives the wrapper indexes of its source (instead of new empty dicts) reads and writes the source's rows through them (rule shared with C02)
     from .c02 import r02f
     r02f(ctx)
+    from .round12 import r10k
+    r10k(ctx)
 
 
 from ..selftest import Seed, unparse_seed  # noqa: E402
